@@ -16,6 +16,7 @@ import OFV.Proofs.C04Dch
 import OFV.Proofs.C04Rev4
 import OFV.Proofs.C04JFinal
 import OFV.Proofs.C04RevInv
+import OFV.Proofs.C04JHam
 
 namespace OFV.C04
 open OFV OFV.Spec OFV.Model OFV.Model.C04 OFV.Sem
@@ -336,6 +337,28 @@ theorem jw_jellium_direct_eq_jordan_wigner (tol : Rat) (htol : tol * tol ≤ 1 /
   rw [jw_jellium_direct_sound tol l spinless kin pot const hevenK hevenP hsum hokD hokM m x]
   exact (jw_exact tol htol _ (Jel.model_ladder tol l spinless kin pot const) hokJ m x).symm
 
+/-- **`jordan_wigner_dual_basis_hamiltonian` is sound**: the jellium direct form plus, for every non-zero momentum
+`k`, qubit `p` and nucleus `j`, the pair `QubitOperator((), c) - QubitOperator(Z_p, c)` with
+`c = ext k (site p) j = (-2π/Ω)/k² Z_j cos(k·(R_j − r_p))` has the matrix elements of
+`plane_wave_hamiltonian(plane_wave=False)` = `dual_basis_jellium_model + dual_basis_external_potential`
+(`Σ_{x,j,k,σ} 2 ext k x j · n_{x,σ}`, built as "first term assigned, the others `+=`") — every grid (all dimensions and
+lengths), spinless or with spin, any number of nuclei, the coefficient table `ext` and the zero-momentum test
+abstract; hypotheses on `K`, `P` as in `jw_jellium_direct_sound` (one decidable flag), both runs exact. -/
+theorem jw_dual_basis_hamiltonian_sound (tol : Rat) (l : List Nat) (spinless : Bool) (kin pot : List Nat → GQ)
+    (nNuc : Nat) (skipK : List Nat → Bool) (ext : List Nat → List Nat → Nat → GQ)
+    (hhyp : C04J.jelliumHypOk l kin pot = true)
+    (hokD : C04J.jwDualBasisHamOk tol l spinless kin pot nNuc skipK ext = true)
+    (hokM : C04J.dualBasisHamModelOk tol l spinless kin pot nNuc skipK ext = true) (m x : Nat) :
+    GV.coeff (applyOp .qubit (C04J.jwDualBasisHam tol l spinless kin pot nNuc skipK ext) [m]) [x]
+      = GV.coeff (applyOp .fermion (C04J.dualBasisHamModel tol l spinless kin pot nNuc skipK ext) [m]) [x] := by
+  unfold C04J.jelliumHypOk at hhyp
+  simp only [Bool.and_eq_true, List.all_eq_true, beq_iff_eq] at hhyp
+  obtain ⟨he, hs⟩ := hhyp
+  exact Jel.dualBasisHam_sound tol l spinless kin pot nNuc skipK ext
+    (fun u v hu hv => (he u ((Jel.allPoints_mem l u).2 hu) v ((Jel.allPoints_mem l v).2 hv)).1)
+    (fun u v hu hv => (he u ((Jel.allPoints_mem l u).2 hu) v ((Jel.allPoints_mem l v).2 hv)).2)
+    hs hokD hokM m x
+
 /-! ### non-vacuity -/
 
 /-- the threshold the driver runs with satisfies the hypothesis of the theorems -/
@@ -435,7 +458,7 @@ example : jwDCHOk Generated.eqTolerance 3 ⟨mkRat 3 4, 0⟩
 * the dual-basis jellium helpers: the index structure and the operator identity ARE theorems
   (`jw_jellium_direct_sound`, momentum sums abstract); that the floating-point momentum sums of the library are
   even and satisfy `Σ_δ P(δ) = 0` up to rounding is checked numerically by the harness only;
-  `jordan_wigner_dual_basis_hamiltonian` (external potential of nuclei) has no Model. -/
+  `jordan_wigner_dual_basis_hamiltonian` likewise (`jw_dual_basis_hamiltonian_sound`, table `ext` abstract). -/
 
 /-- all hypotheses of `jw_jellium_direct_sound` on a concrete 2-D grid with unequal lengths `3 × 2`, spinless
 (6 qubits; the spinful case is exercised by the harness) and with a constant: tables of `K` and `P` that are even and with `Σ P = 0` -/
@@ -449,6 +472,20 @@ example :
     ∧ C04J.jwJelliumDirectOk Generated.eqTolerance l true kin pot (some ⟨mkRat 7 4, 0⟩) = true
     ∧ C04J.dualBasisModelOk Generated.eqTolerance l true kin pot (some ⟨mkRat 7 4, 0⟩) = true := by
   refine ⟨by decide +kernel, by decide +kernel, by decide +kernel, by decide +kernel, by decide +kernel⟩
+
+/-- all hypotheses of `jw_dual_basis_hamiltonian_sound` on a concrete instance: 1-D grid of 3 points with spin
+(6 qubits), two nuclei, momentum index 1 is the zero momentum -/
+example :
+    let l := [3]
+    let kin := C04J.tableFn l [⟨2, 0⟩, ⟨-1, 0⟩, ⟨-1, 0⟩]
+    let pot := C04J.tableFn l [⟨1, 0⟩, ⟨-(mkRat 1 2), 0⟩, ⟨-(mkRat 1 2), 0⟩]
+    let skipK : List Nat → Bool := fun k => k == [1]
+    let ext : List Nat → List Nat → Nat → GQ := fun k x j =>
+      if (k.headD 0 + x.headD 0 + j) % 3 == 0 then ⟨-(j + 1 : Nat), 0⟩ else ⟨mkRat (j + 1) 2, 0⟩
+    C04J.jelliumHypOk l kin pot = true
+    ∧ C04J.jwDualBasisHamOk Generated.eqTolerance l false kin pot 2 skipK ext = true
+    ∧ C04J.dualBasisHamModelOk Generated.eqTolerance l false kin pot 2 skipK ext = true := by
+  refine ⟨by decide +kernel, by decide +kernel, by decide +kernel⟩
 
 /-- hypotheses of `reverse_jw_right_inverse` on a concrete QubitOperator with `X`, `Y`, `Z` strings and complex
 coefficients (kernel-evaluated) -/
